@@ -107,8 +107,8 @@ Ltac use_r1 HR :=
 
 Definition quiet_action (a : action) : bool :=
   match a with
-  | ASub _ _ | AWaitDone _ | AWaitCtx _ | APublish _ | ABook _ | AInsert _ | AUnsub _ | AUnsubSend _
-  | ARemove _ | ARLRemove _ | ATimerFire _ | ARemoveConn _ | UpAccept _ | UpReject _ | UpAck _
+  | ASub _ _ | ARetry _ | AWaitDone _ | AWaitCtx _ | APublish _ | ABook _ | AInsert _ | AUnsub _ | AUnsubSend _
+  | ARemove _ | ARLRemove _ | ARemoveConn _ | UpAccept _ | UpReject _ | UpAck _
   | SseSub _ | SseOk _ | SseFail _ | SseMsg _ _ | SseDrop _ => true
   | _ => false
   end.
@@ -125,7 +125,7 @@ Proof. intros. change w with (fst (w, i)). apply in_map; auto. Qed.
 Lemma rel_insert : forall s i r s' e, Inv s -> Rel s r -> step s (AInsert i) = Some (s', e) -> Rel s' r.
 Proof.
   intros s i r s' e HI HR H. drel HR. inv_step H.
-  1-3: (* closed / id exists *) constructor; auto; intros; simp; eqb_cases; inj_all; try congruence; eauto.
+  1-2: (* closed / id exists *) constructor; auto; intros; simp; eqb_cases; inj_all; try congruence; eauto.
   - (* inserted *)
     rename c0 into xa. constructor; auto; simp.
     + intros cc ww ii Hin. destruct (Hr1 _ _ _ Hin) as (x & Hx & Hdd & Hsn & Hor). unfold upd.
@@ -286,6 +286,9 @@ Proof.
   - (* ASub, becoming the dialler *)
     eapply (rel_ext (set_pc s i (SDial (next_c s)))); try reflexivity.
     apply rel_set_pc; auto. intros; discriminate.
+  - (* ARetry, becoming the dialler *)
+    eapply (rel_ext (set_pc s i (SDial (next_c s)))); try reflexivity.
+    apply rel_set_pc; auto. intros; discriminate.
   - (* ARemoveConn *)
     eapply (rel_ext (set_cn s c (c_set_rm c0 false))); try reflexivity.
     eapply rel_set_cn_same; eauto.
@@ -365,6 +368,14 @@ Proof.
       destruct E2; subst; auto. apply rel_clr; auto.
     + rewrite scan_closed; [|exact (R_soft _ _ HR)|apply map_connerr_quiet].
       eexists; split; [reflexivity|]. eapply rel_kill; eauto; simpl; rewrite ?Ed; congruence.
+Qed.
+
+Lemma rel_close_if_empty : forall s r c s' evs, Rel s r -> close_if_empty s c = (s', evs) ->
+  exists r', scan r evs = Some r' /\ Rel s' r'.
+Proof.
+  intros s r c s' evs HR H.
+  destruct (close_if_empty_cases _ _ _ _ H) as [(-> & -> & _)|(x & _ & _ & _ & _ & _ & Hs)];
+    [exists r; auto | eapply rel_shut; eauto].
 Qed.
 
 Definition canc_reg (r : rs) (i : nat) : rs :=
@@ -525,6 +536,14 @@ Proof.
   - simpl in H1. rewrite upd_same in H1. inversion H1; subst. simpl. congruence.
 Qed.
 
+Lemma close_if_empty_rl : forall s c s' evs x x', close_if_empty s c = (s', evs) -> cns s c = Some x -> cns s' c = Some x' ->
+  c_rl x' = c_rl x.
+Proof.
+  intros. destruct (close_if_empty_cases _ _ _ _ H) as [(-> & _)|(y & _ & _ & _ & _ & _ & Hs)].
+  - congruence.
+  - eapply shut_rl; eauto.
+Qed.
+
 Lemma scan_tail_quiet : forall l1 l2 r r1, scan r l1 = Some r1 -> soft r1 -> Forall quiet l2 ->
   exists r2, scan r (l1 ++ l2) = Some r2 /\ (r2 = r1 \/ r2 = clr r1).
 Proof.
@@ -557,48 +576,27 @@ Proof.
   - (* ASend *)
     inv_step H.
     + exists r. split; auto. apply rel_set_pc; auto. intros; discriminate.
+    + exists r. split; auto. apply rel_set_pc; auto. intros; discriminate.
     + destruct (rel_sent _ _ _ _ _ _ HI HR Heqs0 Heqo Heqo0) as [Hm HR1].
       simpl. rewrite scan1_soft by (apply (R_soft _ _ HR) || exact I). simpl. rewrite Hm.
       rewrite scan1_soft by ((unfold soft; simpl; auto) || exact I). simpl.
       eexists; split; [reflexivity|]. exact HR1.
-  - (* ASendCtx *)
-    inv_step H; try
-    first
-    [ (* frame written, then the socket is closed under it *)
-      destruct (rel_sent _ _ _ _ _ _ HI HR Heqs0 Heqo Heqo0) as [Hm HR1];
-      simpl; rewrite scan1_soft by (apply (R_soft _ _ HR) || exact I); simpl; rewrite Hm;
-      rewrite scan1_soft by ((unfold soft; simpl; auto) || exact I); simpl;
-      rewrite scan1_soft by ((unfold soft; simpl; auto) || exact I); simpl;
-      eexists; split; [reflexivity|];
-      eapply (rel_kill _ _ c c0 (c_kill c0 (CWriteCtx i))) in HR1; [exact HR1 | exact Heqo | |reflexivity];
-      unfold c_kill; simpl; rewrite Heqo0; discriminate
-    | (* write fails and the socket is closed *)
-      rewrite scan_closed1 by apply (R_soft _ _ HR); eexists; split; [reflexivity|];
-      apply rel_set_pc; [|intros; discriminate];
-      eapply rel_kill; eauto; unfold c_kill; simpl; rewrite Heqo0; discriminate
-    | (* write fails cleanly *)
-      exists r; split; auto; apply rel_set_pc; [|intros; discriminate]; eapply rel_set_cn_same; eauto ].
-    destruct (rel_sent _ _ _ _ _ _ HI HR Heqs0 Heqo Heqo0) as [Hm HR1].
-    simpl. rewrite scan1_soft by (apply (R_soft _ _ HR) || exact I). simpl. rewrite Hm. simpl.
-    eexists; split; [reflexivity|].
-    assert (Hdd : c_dead (c_kill c0 (CWriteCtx i)) <> None) by (unfold c_kill; simpl; rewrite Heqo0; discriminate).
-    exact (rel_kill _ _ c c0 (c_kill c0 (CWriteCtx i)) HR1 Heqo Hdd eq_refl).
   - (* AClose *)
-    inv_step H. destruct (rel_shut _ _ _ _ _ _ HR Heqp) as [r1 [E1 HR1]].
+    inv_step H. destruct (rel_close_if_empty _ _ _ _ _ HR Heqp) as [r1 [E1 HR1]].
     destruct (scan_tail_quiet _ (ret_evs i k) _ _ E1 (R_soft _ _ HR1) (ret_evs_quiet i k)) as [r2 [E2 E3]].
     exists r2. split; auto.
     assert (Rel (set_pc s0 i (after k)) r1) by (apply rel_set_pc; auto; destruct k; intros; discriminate).
     destruct E3; subst; auto. apply rel_clr; auto.
   - (* ARLClose *)
-    inv_step H. destruct (rel_shut _ _ _ _ _ _ HR Heqp) as [r1 [E1 HR1]].
+    inv_step H. destruct (rel_close_if_empty _ _ _ _ _ HR Heqp) as [r1 [E1 HR1]].
     exists r1. split; auto. eapply rel_set_rl; eauto; try (intros; discriminate).
-    intros w. rewrite (shut_rl _ _ _ _ _ _ _ Heqp Heqo Heqo0). congruence.
+    intros w. rewrite (close_if_empty_rl _ _ _ _ _ _ Heqp Heqo Heqo0). congruence.
   - (* ARLReadErr *)
     inv_step H. destruct (rel_shut _ _ _ _ _ _ HR Heqp) as [r1 [E1 HR1]].
     exists r1. split; auto. eapply rel_set_rl; eauto; try (intros; discriminate).
     intros w. match goal with Hs1 : cns s0 c = Some _ |- _ => rewrite (shut_rl _ _ _ _ _ _ _ Heqp Heqo Hs1) end. congruence.
-  - (* ATimerClose *)
-    inv_step H. eapply rel_shut; [|eauto]. eapply rel_set_cn_same; eauto.
+  - (* ATimerFire *)
+    inv_step H. eapply rel_close_if_empty; [|eauto]. eapply rel_set_cn_same; eauto.
   - (* UpInitFail *)
     assert (Hno : forall d y, dials s d = Some y -> d_phase y <> DReturned -> forall w j, ~ In (d, w, j) (r_reg r)).
     { intros d0 y Hd Hp w j Hin. destruct (R1 _ _ HR _ _ _ Hin) as (x & Hx & _). rewrite (HN _ _ Hd Hp) in Hx. discriminate. }
